@@ -22,12 +22,12 @@ COMPONENTS = {"real": ["workflows.* engine, BrokerState.to_serialized/from_seria
               "stub": ["llama_index_instrumentation"], "sim": ["loop, clock, snapshot/resume driver"]}
 ASSUMPTIONS = ["the abandoned incarnation is hard-stopped at the snapshot instant; what it still does afterwards is ignored",
                "an invocation interrupted by the snapshot does not count against the retry budget; completed (failed) attempts do"]
-EXPECTED_PROBES = ["snapshot-with-inflight", "snapshot-with-queued", "snapshot-with-pending-retry", "inflight-had-attempts", "snapshot-with-delayed-retry-pending"]
+EXPECTED_PROBES = ["twin-deliveries", "snapshot-with-inflight", "snapshot-with-queued", "snapshot-with-pending-retry", "inflight-had-attempts", "snapshot-with-delayed-retry-pending"]
 LEVEL_TEXT = ("Seeded exploration of snapshot instants x programs, differential against the uninterrupted run on the same tape, "
               "plus a budget count over both incarnations and a serialize/deserialize fixpoint check of the snapshot itself.")
 LEVEL_NOTE = "Trusted: simulator loop; determinism-by-construction of the generated programs (path ids, idempotent writes)."
 
-CFG = {"driver": "finish", "grid": [0, 1, 1, 2, 3], "p_wait": 0, "p_external": 0}
+CFG = {"driver": "finish", "grid": [0, 1, 1, 2, 3], "p_wait": 0, "p_external": 0, "allow_twins": True}
 
 
 def gen(tape, cfg):
@@ -37,9 +37,14 @@ def gen(tape, cfg):
     delay = tape.choice([0, 0, 1, 2], "w0.delay")
     pol0 = {"retry": None, "wait": ("fixed", delay) if delay else ("none",), "stop": ("attempt", n_att)} if tape.chance(70, 100, "w0.pol") else None
     two = tape.chance(60, 100, "two")
+    twins = bool(cfg.get("allow_twins")) and tape.chance(25, 100, "twins")
+    if twins:
+        # identical-payload deliveries (the same event sent twice); no failures in this arm, its oracle is the per-delivery
+        # completion count against the uninterrupted reference
+        k0, n0 = 0, min(n0, 2)
     steps = [
         {"name": "s0", "accepts": ["Start0"], "workers": 1, "sync": False, "retry": None, "role": "step",
-         "scripts": {"Start0": [("work",), ("pset",), ("psend", "E0", n0), ("ret", None)]}, "returns": ["E0"], "stop": False},
+         "scripts": {"Start0": [("work",), ("pset",), ("ptwin" if twins else "psend", "E0", n0), ("ret", None)]}, "returns": ["E0"], "stop": False},
         {"name": "w0", "accepts": ["E0"], "workers": tape.rng_int(1, 3, "w0.w"), "sync": False, "retry": pol0, "role": "step",
          "scripts": {"E0": [("work",), ("failpath", "ValueError", k0), ("pset",)] + ([("psend", "E1", tape.rng_int(1, 2, "m"))] if two else []) + [("ret", None)]},
          "returns": ["E1"] if two else [], "stop": False},
@@ -55,7 +60,23 @@ def gen(tape, cfg):
                       "scripts": {"StepFailedEvent": [("work",), ("hset",), ("ret", None)]}, "returns": [], "stop": False})
     steps.append({"name": "zfin", "accepts": ["Fin"], "workers": 1, "sync": False, "retry": None, "role": "step",
                   "scripts": {"Fin": [("pstop",)]}, "returns": [], "stop": True})
-    return {"steps": steps, "types": ["E0", "E1"] if two else ["E0"], "timeout": None, "driver": "finish", "disable_validation": False}
+    return {"steps": steps, "types": ["E0", "E1"] if two else ["E0"], "timeout": None, "driver": "finish", "disable_validation": False,
+            "twins": twins}
+
+
+def completions(recs) -> dict:
+    """(step, path) -> number of step results the engine processed"""
+    path_of: dict = {1: "r", 0: "r"}
+    out: dict = {}
+    for seq, t, kind, f in recs:
+        if kind == "emit" and f.get("path") is not None and f["uid"] is not None:
+            path_of[f["uid"]] = f["path"]
+        elif kind == "tick" and f["tick"] == "step_result" and any(r[0] == "result" for r in f["res"]):
+            u = f["uid"]
+            if not isinstance(u, (list, tuple)) and u in path_of:
+                k = f"{f['step']}/{path_of[u]}"
+                out[k] = out.get(k, 0) + 1
+    return out
 
 
 def _summary(world, outcome):
@@ -86,6 +107,10 @@ _LAST: dict = {}
 def check(world, spec, outcome) -> None:
     recs = world.live_recs()
     _LAST["summary"] = _summary(world, outcome)
+    _LAST["completions"] = completions(recs)
+    _LAST["twins"] = bool(spec.get("twins"))
+    if spec.get("twins"):
+        world.probe("twin-deliveries")
     _LAST["resumed"] = bool(outcome and outcome.get("resumed"))
     # budget across incarnations: completed executions per (step, path)
     budget = {s["name"]: (s["retry"]["stop"][1] if s["retry"] else 1) for s in spec["steps"] if s["role"] == "step"}
@@ -138,6 +163,8 @@ def check(world, spec, outcome) -> None:
                 if any(rn for _, _, rn in open_inv.values()):
                     world.probe("inflight-had-attempts")
     for (st, path), n in execs.items():
+        if spec.get("twins"):
+            break
         if st in budget and n > max(budget[st], 1) and _LAST["resumed"]:
             world.violate("C12.retry-budget", f"step {st} executed {n} times for logical event {path!r} across both incarnations; "
                           f"stop_after_attempt({budget[st]})", inflight_with_attempts=_LAST["inflight_with_attempts"])
@@ -148,7 +175,7 @@ def check(world, spec, outcome) -> None:
             for seq, t, kind, f in recs:
                 if kind == "step-failed-event":
                     pass
-    for st, path, seq in reexecuted_completed(recs):
+    for st, path, seq in ([] if spec.get("twins") else reexecuted_completed(recs)):
         world.violate("C12.reexecuted-completed", f"step {st} was executed again for logical event {path!r} after the resume although its "
                       f"completion was already recorded before the snapshot", seq)
     js = outcome.get("snapshot") if outcome else None
@@ -221,8 +248,21 @@ def run(tape):
     res1 = simulate(tape, CFG, check, gen=gen, scenario=drive_resume, nontrivial=lambda w, s, o: w._nt)
     s1, resumed = _LAST.get("summary"), _LAST.get("resumed")
     t2 = Tape(replay=list(tape.values))
-    res2 = simulate(t2, CFG, lambda w, s, o: _LAST.__setitem__("ref", _summary(w, o)), gen=gen, scenario=drive_standard)
+    comp1 = _LAST.get("completions") or {}
+
+    def _ref(w, s, o):
+        _LAST["ref"] = _summary(w, o)
+        _LAST["ref_completions"] = completions(w.trace.recs)
+    res2 = simulate(t2, CFG, _ref, gen=gen, scenario=drive_standard)
     ref = _LAST.get("ref")
+    if res1["harness"] is None and res2["harness"] is None and resumed and s1 and ref and s1["res"][0] == "result" and ref["res"][0] == "result":
+        # every invocation that had not completed at the snapshot is executed again: per delivery target, the interrupted + resumed
+        # run processes at least as many step results as the uninterrupted run (at-least-once; identical payloads count separately)
+        short = {k: (comp1.get(k, 0), n) for k, n in (_LAST.get("ref_completions") or {}).items() if comp1.get(k, 0) < n}
+        if short:
+            res1["violations"] = res1["violations"] + [{"rule": "C12.invocation-lost", "cause": {"identical_payloads": bool(_LAST.get("twins")), "pending_delayed_retry": _LAST.get("pending_delayed_retry", False)}, "seq": 0,
+                                                        "msg": f"step results processed (interrupted+resumed, reference) per step/path: {short}: "
+                                                               f"an invocation that had not completed at the snapshot was never re-executed"}]
     if res1["harness"] is None and res2["harness"] is None and resumed and s1 and ref:
         if s1["res"] != ref["res"]:
             kind = s1["res"][0] + "-vs-" + ref["res"][0]
